@@ -21,7 +21,8 @@ EXTENDS Programs, TLC, Json
 
 CONSTANTS MaxLeaves, MaxOps, MaxTensors, ChunkSizes, MaxRows,
           SampleMod, SamplePick,    \* scenario export: 1 out of SampleMod (by a content hash)
-          PreModes                  \* subset of {"none", "all"}: pre-existing .grad on no / every requested input
+          PreModes                  \* call modes, subset of {"none", "all", "leafout"}: pre-existing .grad on no / every
+                                    \* requested input; "leafout": leaves admitted in `tensors`
 
 VARIABLES P,        \* the program
           phase,    \* "build" | "init" | "diag" | "jac" | "agg" | "acc" | "done"
@@ -57,7 +58,12 @@ AddOp == /\ phase = "build" /\ NumLeaves(P) >= 1 /\ NumOps(P) < MaxOps
 Weight(r) == r - 2                     \* -1, 0, 1, 2, ... : distinct, with a zero and a negative
 PreGrad(sz) == [i \in 1..sz |-> 5 * i] \* content of a pre-existing .grad
 
-TensorSeqs == {s \in UNION {[1..n -> Differentiable(P)] : n \in 1..MaxTensors} :
+\* `tensors` may hold any tensor that requires grad: non-leaf nodes, and leaves as well (the identity
+\* computation: its Jacobian block w.r.t. itself is the identity, w.r.t. anything else zero)
+\* Explored when "leafout" \in PreModes (a separate run: only calls with at least one leaf in `tensors`).
+LeafOut    == "leafout" \in PreModes
+Outputs(Q) == Differentiable(Q) \cup (IF LeafOut THEN RGLeaves(Q) ELSE {})
+TensorSeqs == {s \in UNION {[1..n -> Outputs(P)] : n \in 1..MaxTensors} :
                   \A i, j \in DOMAIN s : i # j => s[i] # s[j]}
 
 NRowsOf(ts) == SumSeq([i \in 1..Len(ts) |-> Sizes(P)[ts[i]]])
@@ -69,6 +75,7 @@ ChooseCall ==
     /\ \E ts \in TensorSeqs, ins \in (SUBSET RGLeaves(P)) \ {{}}, k \in ChunkSizes :
          /\ Len(P) \in Range(ts)
          /\ NRowsOf(ts) <= MaxRows
+         /\ LeafOut => \E i \in DOMAIN ts : IsLeaf(P, ts[i])
          /\ \E pre \in ({{} : x \in PreModes \cap {"none"}} \cup {ins : x \in PreModes \cap {"all"}}) :
               /\ call' = [tensors |-> ts, inputs |-> ins, k |-> k,
                           w |-> [r \in 1..NRowsOf(ts) |-> Weight(r)], pre |-> pre,
